@@ -346,6 +346,35 @@ return da.core.blockdims_from_blockshape(shape, dim_elements)
 """
 
 
+def _is_log_call(st):
+    """logger.debug(...) / logging.info(...) / warnings.warn(...) as a statement."""
+    if not (isinstance(st, ast.Expr) and isinstance(st.value, ast.Call)):
+        return False
+    f = st.value.func
+    return (isinstance(f, ast.Attribute) and isinstance(f.value, ast.Name)
+            and (f.value.id in ('logger', 'logging', 'log', '_logger', 'LOGGER')
+                 or (f.value.id == 'warnings' and f.attr == 'warn')))
+
+
+def _clean(body):
+    """Statements without docstrings and logging calls (recursively in compound statements)."""
+    out = []
+    for st in body:
+        if isinstance(st, ast.Expr) and isinstance(st.value, ast.Constant) and isinstance(st.value.value, str):
+            continue
+        if _is_log_call(st):
+            continue
+        if isinstance(st, ast.FunctionDef):
+            st.body = _clean(st.body)
+        for f in ('body', 'orelse', 'finalbody'):
+            if isinstance(getattr(st, f, None), list) and not isinstance(st, ast.FunctionDef):
+                setattr(st, f, _clean(getattr(st, f)))
+        for h in getattr(st, 'handlers', []):
+            h.body = _clean(h.body)
+        out.append(st)
+    return out
+
+
 def _is_hole(name):
     return isinstance(name, str) and name.startswith('__') and name.endswith('__') and len(name) > 4
 
@@ -355,8 +384,8 @@ def _match(actual, templ, holes, what):
     attribute / identifier spelled `__X__` captures the actual identifier."""
     if isinstance(templ, ast.Name) and _is_hole(templ.id):
         key = templ.id.strip('_')
-        d = ast.dump(actual)
-        if key in holes and ast.dump(holes[key]) != d:
+        d = ast.unparse(actual)      # (unparse: a local captured as assignment target and as operand is the same name)
+        if key in holes and ast.unparse(holes[key]) != d:
             raise TranslateError('%s: the two occurrences of %s differ' % (what, key))
         holes[key] = actual
         return
@@ -455,7 +484,7 @@ def item_generate_chunks(repo, out):
             or [ast.unparse(d) for d in a.defaults] != ['None', 'False', 'None'] or a.vararg or a.kwarg or a.kwonlyargs
             or fn.decorator_list):
         raise TranslateError('generate_chunks: unexpected signature / defaults')
-    body = [s for s in fn.body if not (isinstance(s, ast.Expr) and isinstance(s.value, ast.Constant))]
+    body = _clean(fn.body)
     holes = {}
     _match(body, ast.parse(_GC_TEMPLATE).body, holes, 'generate_chunks')
     fp = [n for n in tree.body if isinstance(n, ast.FunctionDef) and n.name == '_floor_power_of_two']
@@ -561,15 +590,8 @@ return np.full(singleton_shape, success)
 
 
 def _nodoc(body):
-    """Statements without docstrings (also those of nested function definitions)."""
-    out = []
-    for st in body:
-        if isinstance(st, ast.Expr) and isinstance(st.value, ast.Constant) and isinstance(st.value.value, str):
-            continue
-        if isinstance(st, ast.FunctionDef):
-            st.body = _nodoc(st.body)
-        out.append(st)
-    return out
+    """Statements without docstrings and logging calls (also those of nested statements and function definitions)."""
+    return _clean(body)
 
 
 def _module_func(tree, name):
@@ -701,5 +723,115 @@ else:
     if [ast.unparse(d) for d in fg.args.defaults] != ['()', '()', '0']:
         raise TranslateError('get_dask_array: defaults of offset / index / errors changed')
 
+# ---------------------------------------------------------------------------------------------------
+# S3 object URL assembly: make_url = _normalise_bucket_name(urljoin(store URL, quote(relative path))) and its callers
 
-ITEMS = [item_chunk_names, item_dask_names, item_npy_body, item_generate_chunks, item_prune_and_shims, item_chunk_metadata]
+_MAKE_URL_TEMPLATE = """
+__Q__ = to_str(urllib.parse.quote(relative_path))
+__U__ = urllib.parse.urljoin(self._url, __Q__)
+return _normalise_bucket_name(__U__)
+"""
+
+
+def _calls_make_url(fn, what):
+    """The argument expressions (unparsed) of every self.make_url(...) call in fn."""
+    out = []
+    for n in ast.walk(fn):
+        if (isinstance(n, ast.Call) and isinstance(n.func, ast.Attribute) and n.func.attr == 'make_url'
+                and isinstance(n.func.value, ast.Name) and n.func.value.id == 'self'):
+            if len(n.args) != 1 or n.keywords:
+                raise TranslateError('%s: make_url is not called with one positional argument' % what)
+            out.append(n.args[0])
+    return out
+
+
+def _assigned_from(fn, var, what):
+    """The value expressions assigned to the local `var` (single Name target or first element of a tuple target)."""
+    vals = []
+    for n in ast.walk(fn):
+        if isinstance(n, ast.Assign) and len(n.targets) == 1:
+            t = n.targets[0]
+            if isinstance(t, ast.Name) and t.id == var:
+                vals.append(n.value)
+            elif isinstance(t, ast.Tuple) and t.elts and isinstance(t.elts[0], ast.Name) and t.elts[0].id == var:
+                vals.append(n.value)
+        elif isinstance(n, (ast.AugAssign, ast.AnnAssign, ast.NamedExpr)):
+            t = n.target
+            if isinstance(t, ast.Name) and t.id == var:
+                raise TranslateError('%s: %s is modified in an unexpected way' % (what, var))
+    return vals
+
+
+def item_s3_url(repo, out):
+    """make_url and what its callers hand to it -- pinned, nothing emitted (the model Model/ChunksUrl.v is hand-written
+    and tied by the correspondence).  Docstrings, comments and logging calls are ignored, locals may be renamed."""
+    rel = 'katdal/chunkstore_s3.py'
+    tree = _parse(repo, rel)
+    cls = _class(tree, 'S3ChunkStore', rel)
+    fm = _func(cls, 'make_url', rel)
+    if [a.arg for a in fm.args.args] != ['self', 'relative_path'] or fm.args.defaults or fm.args.kwonlyargs:
+        raise TranslateError('S3ChunkStore.make_url: unexpected signature')
+    holes = {}
+    _match(_clean(fm.body), ast.parse(_MAKE_URL_TEMPLATE).body, holes, 'S3ChunkStore.make_url')
+    for k in ('Q', 'U'):
+        if not isinstance(holes.get(k), ast.Name):
+            raise TranslateError('S3ChunkStore.make_url: a plain local variable is expected for %s' % k)
+    # the store URL is the constructor argument, unchanged
+    fi = _func(cls, '__init__', rel)
+    want = ast.dump(ast.parse('self._url = to_str(url)').body[0])
+    assigns = [n for n in ast.walk(fi) if isinstance(n, ast.Assign) and any(
+        isinstance(t, ast.Attribute) and t.attr == '_url' for t in n.targets)]
+    if len(assigns) != 1 or ast.dump(assigns[0]) != want:
+        raise TranslateError('S3ChunkStore.__init__: self._url is not to_str(url)')
+    others = [n for n in ast.walk(cls) if isinstance(n, (ast.Assign, ast.AugAssign)) and n is not assigns[0] and any(
+        isinstance(t, ast.Attribute) and t.attr == '_url' and isinstance(t.value, ast.Name) and t.value.id == 'self'
+        for t in (n.targets if isinstance(n, ast.Assign) else [n.target]))]
+    if others:
+        raise TranslateError('S3ChunkStore: self._url is assigned outside __init__')
+    # chunks: make_url(<chunk name of chunk_metadata(array_name, slices, ...)> + _CHUNK_EXTENSION)
+    for name in ('get_chunk', 'put_chunk'):
+        fn = _func(cls, name, rel)
+        what = 'S3ChunkStore.%s' % name
+        args = _calls_make_url(fn, what)
+        if len(args) != 1:
+            raise TranslateError('%s: expected exactly one make_url call' % what)
+        a = args[0]
+        if not (isinstance(a, ast.BinOp) and isinstance(a.op, ast.Add) and isinstance(a.left, ast.Name)
+                and isinstance(a.right, ast.Name) and a.right.id == '_CHUNK_EXTENSION'):
+            raise TranslateError('%s: make_url argument is not <chunk name> + _CHUNK_EXTENSION' % what)
+        vals = _assigned_from(fn, a.left.id, what)
+        if len(vals) != 1:
+            raise TranslateError('%s: the chunk name handed to make_url is assigned %d times' % (what, len(vals)))
+        v = vals[0]
+        ok = (isinstance(v, ast.Call) and isinstance(v.func, ast.Attribute) and v.func.attr == 'chunk_metadata'
+              and isinstance(v.func.value, ast.Name) and v.func.value.id == 'self'
+              and [ast.unparse(x) for x in v.args] == ['array_name', 'slices'])
+        if not ok:
+            raise TranslateError('%s: the chunk name is not that of self.chunk_metadata(array_name, slices, ...)' % what)
+    # markers: make_url(self.join(array_name, <marker>)), directly or through one local
+    for name in ('mark_complete', 'is_complete'):
+        fn = _func(cls, name, rel)
+        what = 'S3ChunkStore.%s' % name
+        args = [a for a in _calls_make_url(fn, what)]
+        if len(args) != 1:
+            raise TranslateError('%s: expected exactly one make_url call' % what)
+        a = args[0]
+        if isinstance(a, ast.Name):
+            vals = _assigned_from(fn, a.id, what)
+            if len(vals) != 1:
+                raise TranslateError('%s: the object name handed to make_url is assigned %d times' % (what, len(vals)))
+            a = vals[0]
+        ok = (isinstance(a, ast.Call) and isinstance(a.func, ast.Attribute) and a.func.attr == 'join'
+              and isinstance(a.func.value, ast.Name) and a.func.value.id == 'self' and len(a.args) == 2 and not a.keywords
+              and ast.unparse(a.args[0]) == 'array_name' and isinstance(a.args[1], ast.Constant))
+        if not ok:
+            raise TranslateError('%s: the object name is not self.join(array_name, <marker literal>)' % what)
+    # create_array: the bucket of make_url(array_name)
+    fn = _func(cls, 'create_array', rel)
+    args = _calls_make_url(fn, 'S3ChunkStore.create_array')
+    if len(args) != 1 or ast.unparse(args[0]) != 'array_name':
+        raise TranslateError('S3ChunkStore.create_array: expected make_url(array_name)')
+
+
+ITEMS = [item_chunk_names, item_dask_names, item_npy_body, item_generate_chunks, item_prune_and_shims, item_chunk_metadata,
+         item_s3_url]
